@@ -83,7 +83,7 @@ func c24existing(r *rand.Rand, view kvm.Model) []byte {
 }
 
 func runC24(c *ev.Ctx) {
-	c.Rule = "one underlying store (memory, flushable/memory, LevelDB or Pebble, behind a Compact recorder) with five handles: raw, table(p1), table(p2), nested table(p1).NewTable(p3) and the three-level table(p1).NewTable(p3).NewTable(p4); one key in ten is 56..68 bytes long; p1,p2,p3 drawn from {00, ff, a, ab, a·ff, ff·ff, b, 00·00, a·ff·ff, fe} (nested and non-nested pairs). Random sequences of 70 operations through random handles: put, delete, get/has, iterate(prefix,start), batch put/delete/write/replay (into a recorder, or into a batch of another handle which is then written), snapshot take/read/release, Compact(nil,nil). " +
+	c.Rule = "one underlying store (memory, flushable/memory, LevelDB or Pebble, behind a Compact recorder) with five handles: raw, table(p1), table(p2), nested table(p1).NewTable(p3) and the three-level table(p1).NewTable(p3).NewTable(p4); one key in ten is 56..68 bytes long; p1,p2,p3 drawn from {00, ff, a, ab, a·ff, ff·ff, b, 00·00, a·ff·ff, fe} (nested and non-nested pairs). Random sequences of 70 operations through random handles: put, delete, get/has, iterate(prefix,start) (half of the iterations interleaved with point reads of other keys through the same handle), batch put/delete/write/replay (into a recorder, or into a batch of another handle which is then written), snapshot take/read/release, Compact(nil,nil). " +
 		"Oracle after EVERY operation: the raw content of the underlying store equals the model (so a write through a table touched only p+key), every table's full iteration equals {k minus prefix | k has the prefix}, point reads agree, snapshots keep their creation-time view, batch Replay yields un-prefixed keys; every Compact(nil,nil) on a table reached the underlying store as (start <= prefix, limit nil or greater than every key with the prefix). " +
 		"non-trivial = distinct sequences with a non-nested table pair that both received writes, a key equal to the bare prefix (empty table key), and a whole-table Compact followed by more operations"
 	c.Assumptions = []string{"non-nil keys/values", "table prefixes are non-empty"}
@@ -170,7 +170,27 @@ func runC24(c *ev.Ctx) {
 				case c < 55:
 					p, st := rPrefixStart(r)
 					log = append(log, fmt.Sprintf("%s iterate prefix=%x start=%x", h.name, p, st))
-					got, err := kvm.ReadAll(h.db, p, st, -1)
+					var got []kvm.Pair
+					var err error
+					if r.Intn(2) == 0 {
+						got, err = kvm.ReadAll(h.db, p, st, -1)
+					} else {
+						// the iteration is interleaved with point reads of other keys through the same handle
+						it := h.db.NewIterator(append([]byte{}, p...), append([]byte{}, st...))
+						for it.Next() {
+							got = append(got, kvm.Pair{K: append([]byte{}, it.Key()...), V: append([]byte{}, it.Value()...)})
+							other := c24existing(r, view)
+							if _, gerr := h.db.Get(other); gerr != nil {
+								err = gerr
+							}
+							_, _ = h.db.Has(c24key(r))
+						}
+						if e := it.Error(); e != nil {
+							err = e
+						}
+						it.Release()
+						stats["iterations_interleaved_with_point_reads"]++
+					}
 					if err != nil {
 						return "iterator error " + err.Error()
 					}
